@@ -53,7 +53,7 @@ MIN_BUDGET = 120
 
 
 def budget(tier):
-    return 10000 if tier == "quick" else 400000
+    return 10000 if tier == "quick" else 150000
 
 
 def gen_plan(seed, tier):
